@@ -1,5 +1,5 @@
 HOOK_COMMITS = ["ff50c5273", "6b0293f34"]
-FIX_COMMITS = ["307b60a6e", "62d0031d6", "6ce199372", "5fd9938b5", "ad6795210", "c0547804c", "238fc8377"]
+FIX_COMMITS = ["307b60a6e", "62d0031d6", "6ce199372", "5fd9938b5", "ad6795210", "c0547804c", "238fc8377", "dacbb5db3"]
 
 NOTES = ("All checks are deterministic simulations with fault injection (DESIGN.md). Genuine defects found and repaired "
          "are listed in known_findings.json with status 'fixed'; recorded ones with status 'known'.")
@@ -13,5 +13,5 @@ NOT_APPLICABLE = [
     {"property_id": "C13", "reason": "strict/faithful config loading is a pure function of the configuration text and struct types (DESIGN.md section 6)"},
     {"property_id": "C14", "reason": "opaque-value redaction is a pure function of the value and the rendering path (DESIGN.md section 6)"},
 ]
-for _p in ["C15", "C16", "C17", "C18"]:
+for _p in ["C15", "C16", "C18"]:
     NOT_APPLICABLE.append({"property_id": _p, "reason": PENDING})
